@@ -13,12 +13,19 @@ KF_EXC = 'exception-context-split-across-nodes'
 KF_NOLA = 'no-lookahead-enzyme-crash'
 KF_WIDE = 'wide-lookahead-rule-context-split'
 KF_NESTED = 'record-inside-splicing-insertion'
+KF_NESTED_EDGE = 'record-on-edge-of-inserted-stretch'
 
 
 def has_nested(r: dict) -> bool:
     """the input has a small record inside the stretch an alternative-splicing Insertion /
     Substitution record inserts"""
     return bool(r.get('stats', {}).get('with_nested_in_splicing_insertion'))
+
+
+def has_edge_nested(r: dict) -> bool:
+    """the input has a small record inside the stretch a splicing Insertion / Substitution inserts
+    whose first base is the first inserted base or whose last base is the last inserted base"""
+    return bool(r.get('stats', {}).get('with_record_on_edge_of_inserted_stretch'))
 
 
 def rule_tables():
@@ -233,6 +240,16 @@ def judge_checkpoints(ctx: common.Ctx, res: List[dict], side: str):
             kind = m.group(1) if m else 'other'
             extra = int(m.group(3) or 0) if m else 0
             missing = int(m.group(4) or 0) if m else 0
+            if has_nested(r) and has_edge_nested(r) and side == 'missing' and kind == 'lang' \
+                    and extra == 0 and missing > 0:
+                # open finding record-on-edge-of-inserted-stretch: a record on the first / last base
+                # of the inserted stretch is never applied, so already the graph after
+                # create_variant_graph lacks its sequences (nothing the definition lacks is present)
+                ctx.count('G-' + st, 'failed_known_nested_edge')
+                ctx.add_violation(f'Layer G checkpoint {st} fails on an input with a record on the edge of '
+                                  f'the stretch a splicing record inserts: {o[:200]}', describe(r),
+                                  finding_key=KF_NESTED_EDGE)
+                continue
             if has_nested(r) and st != 'tvg1':
                 # known finding record-inside-splicing-insertion: create_variant_graph builds the
                 # right graph (tvg1 is asserted), fit_into_codons loses / truncates paths
